@@ -80,6 +80,7 @@ type Exec struct {
 	bounds   map[string]int64
 	mapOrder int
 	mapRot   int
+	mapWalks int
 	mdl      *model
 	stubCache map[stubKey]strVal
 	auxVars  []*Term
